@@ -73,7 +73,7 @@ def dump(roots, tag='main', nobody=(), quiet=False):
                'CARGO_PROFILE_DEV_DEBUG': '0', 'RUSTUP_TOOLCHAIN': 'nightly'}
         # the wrapper's output is not part of cargo's fingerprint: force the crate to be recompiled
         sh(['cargo', 'clean', '-p', 'rasn-compiler'], cwd=scratch, env=env)
-        r = sh(['cargo', 'check', '--offline', '-p', 'rasn-compiler', '--lib'], cwd=scratch, env=env)
+        r = sh(['cargo', 'build', '--offline', '-p', 'rasn-compiler', '--lib'], cwd=scratch, env=env)
         if r.returncode != 0 or not os.path.exists(out + '.tmp'):
             sys.stderr.write(r.stdout[-4000:]); sys.stderr.write('\nfront end failed\n'); raise SystemExit(2)
         os.rename(out + '.tmp', out)
